@@ -22,8 +22,8 @@ theorem pruneDep_keeps_code (d : BDep) :
     (pruneDep d).attr = d.attr := ⟨rfl, rfl, rfl, rfl⟩
 
 /-- a visited JS module has no types dependency and no type side on any dependency -/
-theorem pruneSlot_js (mt : Tables.MediaType) (deps : List BDep) (td : Option Res) :
-    pruneSlot (.module (.js mt deps td)) = .module (.js mt (deps.map pruneDep) none) ∧
+theorem pruneSlot_js (mt : Tables.MediaType) (deps : List BDep) (td sm : Option Res) :
+    pruneSlot (.module (.js mt deps td sm)) = .module (.js mt (deps.map pruneDep) none sm) ∧
     ∀ d ∈ deps.map pruneDep, d.type = .none := by
   refine ⟨rfl, ?_⟩
   intro d hd
@@ -34,19 +34,37 @@ theorem pruneSlot_wasm (deps : List BDep) :
     pruneSlot (.module (.wasm deps)) = .module (.wasm (deps.map pruneDep)) := rfl
 
 /-- errors, JSON, node, external entries are kept as they are -/
-theorem pruneSlot_other (sl : BSlot) (h1 : ∀ mt d t, sl ≠ .module (.js mt d t)) (h2 : ∀ d, sl ≠ .module (.wasm d)) :
+theorem pruneSlot_other (sl : BSlot) (h1 : ∀ mt d t sm, sl ≠ .module (.js mt d t sm)) (h2 : ∀ d, sl ≠ .module (.wasm d)) :
     pruneSlot sl = sl := by
   unfold pruneSlot
   split
-  · rename_i mt deps td; exact absurd rfl (h1 mt deps td)
+  · rename_i mt deps td sm; exact absurd rfl (h1 mt deps td sm)
   · rename_i deps; exact absurd rfl (h2 deps)
   · rfl
 
 /-- the code edges followed from a visited module are exactly its resolved code targets
-(dynamic ones included): pruning never looks at the type side to decide what to keep -/
-theorem slotTargets_js (mt : Tables.MediaType) (deps : List BDep) (td : Option Res) (t : Spec) :
-    t ∈ slotTargets (.module (.js mt deps td)) ↔ ∃ d ∈ deps, d.code.okSpec? = some t := by
-  simp [slotTargets, depCodeTargets, List.mem_filterMap]
+(dynamic ones included) and the resolved target of its source map (which a code-only build loads
+as well — repair of F16): pruning never looks at the type side to decide what to keep -/
+theorem slotTargets_js (mt : Tables.MediaType) (deps : List BDep) (td sm : Option Res) (t : Spec) :
+    t ∈ slotTargets (.module (.js mt deps td sm)) ↔
+      (∃ rng, sm = some (.ok t rng)) ∨ ∃ d ∈ deps, d.code.okSpec? = some t := by
+  have hsm : t ∈ smTarget sm ↔ ∃ rng, sm = some (.ok t rng) := by
+    unfold smTarget
+    split
+    · rename_i s rng
+      constructor
+      · intro h; simp at h; subst h; exact ⟨rng, rfl⟩
+      · rintro ⟨r, h⟩; cases h; simp
+    · rename_i hne
+      constructor
+      · intro h; cases h
+      · rintro ⟨r, h⟩; exact absurd h (hne t r)
+  simp only [slotTargets, List.mem_append, hsm, depCodeTargets, List.mem_filterMap]
+
+/-- the types dependency is never a reason to keep anything -/
+theorem slotTargets_ignores_types_dependency (mt : Tables.MediaType) (deps : List BDep)
+    (td td' sm : Option Res) :
+    slotTargets (.module (.js mt deps td sm)) = slotTargets (.module (.js mt deps td' sm)) := rfl
 
 /-- pruning only removes entries: every kept redirect was a redirect of the full graph … -/
 theorem pruned_redirects_subset (roots : List Spec) (slots : List (Spec × BSlot))
@@ -150,23 +168,25 @@ def staleSlots : List (Spec × BSlot) :=
   [(1, .module (.js .TypeScript
       [{ text := 0, code := .ok 2 0, type := .none, dyn := false, attr := none, isAsset := false, sourcePhase := none },
        { text := 1, code := .none, type := .ok 3 1, dyn := false, attr := none, isAsset := false, sourcePhase := none }]
-      none)),
-   (2, .module (.js .TypeScript [] none)),
-   (3, .module (.js .Dts [] none))]
+      none none)),
+   (2, .module (.js .TypeScript [] none none)),
+   (3, .module (.js .Dts [] none none))]
 
 theorem stale_lockfile_example :
     ((pruneTypes [0] staleSlots [(0, 1), (1, 9)] 10).slots.map (·.1)) = [1, 2] ∧
     (pruneTypes [0] staleSlots [(0, 1), (1, 9)] 10).redirects = [(0, 1), (1, 9)] := by decide
 
-/-- non-vacuity: root 0 imports 1 (code) and 2 (type only); 2 is dropped, 1 kept -/
+/-- non-vacuity: root 0 imports 1 (code) and 2 (type only) and names the source map 3; 2 is
+dropped, 1 and the source map's stand-in are kept -/
 def demoSlots : List (Spec × BSlot) :=
   [(0, .module (.js .TypeScript
       [{ text := 0, code := .ok 1 0, type := .none, dyn := false, attr := none, isAsset := false, sourcePhase := none },
        { text := 1, code := .none, type := .ok 2 1, dyn := false, attr := none, isAsset := false, sourcePhase := none }]
-      none)),
-   (1, .module (.js .JavaScript [] (some (.ok 2 2)))),
-   (2, .module (.js .Dts [] none))]
+      none (some (.ok 3 7)))),
+   (1, .module (.js .JavaScript [] (some (.ok 2 2)) none)),
+   (2, .module (.js .Dts [] none none)),
+   (3, .module (.external true))]
 
-example : ((pruneTypes [0] demoSlots [] 10).slots.map (·.1)) = [0, 1] := by decide
+example : ((pruneTypes [0] demoSlots [] 10).slots.map (·.1)) = [0, 1, 3] := by decide
 
 end DG.C17
